@@ -415,19 +415,23 @@ fn parse_sep_end_by<'t, Item>(
     end: impl Fn(Context<'t>) -> ParseResult<'t, bool>,
     item: impl Fn(Context<'t>) -> ParseResult<'t, Item>,
 ) -> ParseResult<'t, Vec<Item>> {
-    let (end_ctx, is_end) = end(ctx)?;
-    if is_end {
-        return Ok((end_ctx, vec![]));
+    // A loop, not a recursion per item: a long list must not need a deep stack.
+    let mut ctx = ctx;
+    let mut res = Vec::new();
+    loop {
+        let (end_ctx, is_end) = end(ctx)?;
+        if is_end {
+            return Ok((end_ctx, res));
+        }
+        let (item_ctx, i) = item(ctx)?;
+        res.push(i);
+        let (end_ctx, is_end) = end(item_ctx)?;
+        if is_end {
+            return Ok((end_ctx, res));
+        }
+        let (sep_ctx, _) = sep(item_ctx)?;
+        ctx = sep_ctx;
     }
-    let (ctx, i) = item(ctx)?;
-    let (end_ctx, is_end) = end(ctx)?;
-    if is_end {
-        return Ok((end_ctx, vec![i]));
-    }
-    let (ctx, _) = sep(ctx)?;
-    let (ctx, mut res) = parse_sep_end_by(ctx, sep, end, item)?;
-    res.insert(0, i);
-    Ok((ctx, res))
 }
 
 #[macro_export]
@@ -884,7 +888,7 @@ fn assignable_call<'t>(ctx: Context<'t>, callee: Assignable) -> ParseResult<'t, 
 
     use AssignableKind::Call;
     let result = Assignable { span, kind: Call(Box::new(callee), args) };
-    sub_assignable(ctx, result)
+    Ok((ctx, result))
 }
 
 /// Parse an [AssignableKind::Index].
@@ -909,20 +913,7 @@ fn assignable_index<'t>(ctx: Context<'t>, indexed: Assignable) -> ParseResult<'t
         span,
         kind: Index(Box::new(indexed), Box::new(expr)),
     };
-    sub_assignable(ctx, result)
-}
-
-/// Parse an [AssignableKind::Access] or [AssignableKind::Variant].
-fn assignable_dot_or_variant<'t>(
-    ctx: Context<'t>,
-    accessed: Assignable,
-) -> ParseResult<'t, Assignable> {
-    // TODO(ed): It might be possible to remove this branch?
-    // TODO(ed): We throw away error information here...
-    match assignable_variant(ctx, accessed.clone()) {
-        Ok(variant) => Ok(variant),
-        Err(_) => assignable_dot(ctx, accessed),
-    }
+    Ok((ctx, result))
 }
 
 /// Parse an [AssignableKind::Variant].
@@ -994,16 +985,30 @@ fn assignable_dot<'t>(ctx: Context<'t>, accessed: Assignable) -> ParseResult<'t,
         span: ctx.span(),
         kind: Access(Box::new(accessed), ident),
     };
-    sub_assignable(ctx, access)
+    Ok((ctx, access))
 }
 
 /// Parse a (maybe empty) "sub-assignable", i.e. either a call or indexable.
 fn sub_assignable<'t>(ctx: Context<'t>, assignable: Assignable) -> ParseResult<'t, Assignable> {
-    match ctx.token() {
-        T::Prime | T::LeftParen => assignable_call(ctx, assignable),
-        T::LeftBracket => assignable_index(ctx, assignable),
-        T::Dot => assignable_dot_or_variant(ctx, assignable),
-        _ => Ok((ctx, assignable)),
+    // One step (a call, an index, an access) per turn of the loop: a long chain must not need a
+    // deep stack.
+    let mut ctx = ctx;
+    let mut assignable = assignable;
+    loop {
+        let (next_ctx, next) = match ctx.token() {
+            T::Prime | T::LeftParen => assignable_call(ctx, assignable)?,
+            T::LeftBracket => assignable_index(ctx, assignable)?,
+            // An access or an enum-variant; the chain ends with a variant.
+            // TODO(ed): It might be possible to remove this branch?
+            // TODO(ed): We throw away error information here...
+            T::Dot => match assignable_variant(ctx, assignable.clone()) {
+                Ok(variant) => return Ok(variant),
+                Err(_) => assignable_dot(ctx, assignable)?,
+            },
+            _ => return Ok((ctx, assignable)),
+        };
+        ctx = next_ctx;
+        assignable = next;
     }
 }
 
